@@ -673,7 +673,10 @@ func (s *Server) handleTestUpstreamDNS(w http.ResponseWriter, r *http.Request) {
 
 // handleCacheClear is the handler for the POST /control/cache_clear HTTP API.
 func (s *Server) handleCacheClear(w http.ResponseWriter, _ *http.Request) {
-	s.dnsProxy.ClearCache()
+	if prx := s.proxy(); prx != nil {
+		prx.ClearCache()
+	}
+
 	s.conf.ClientsContainer.ClearUpstreamCache()
 
 	_, _ = io.WriteString(w, "OK")
